@@ -151,7 +151,7 @@ func Run(cs Case, c *vrt.Ctx) {
 			continue
 		}
 		var err error
-		pv, stack := vrt.Catch(func() { err = fe.f(append([]byte(nil), data...)) })
+		pv, stack := vrt.Catch(func() { err = fe.f(gx.Exact(data)) })
 		if pv != nil {
 			c.Fail("panic", fe.name, fmt.Sprintf("%v at %s on %q", pv, stack, data))
 			continue
